@@ -23,7 +23,7 @@ ASSUMPTIONS = [
     "fixed-to-zero parameters are not generated (remove_unused_parameters_and_rvs keeps them by design)",
 ]
 MIN_NONTRIVIAL = {"quick": 300, "thorough": 3000}
-REQUIRED_MONITORS = ["full_expression", "dependencies", "remove_symbol_definitions", "reassign", "subs",
+REQUIRED_MONITORS = ["full_expression", "dependencies", "remove_symbol_definitions", "remove_symbol_definitions_removed_something", "reassign", "subs",
                      "find_assignment", "remove_unused"]
 
 ASSIGNABLE = ["A", "B", "C", "D", "E", "G", "H", "S"]
@@ -552,7 +552,9 @@ def _check_remove_defs(c, rng, prog, envs, amounts, text):
     if list(stmts2).count(stmts2[k]) > 1:
         return
     try:
-        res = stmts2.remove_symbol_definitions([sympy.Symbol(s) for s in syms], stmts2[k])
+        from pharmpy.basic import Expr
+
+        res = stmts2.remove_symbol_definitions([Expr.symbol(s) for s in syms], stmts2[k])
     except Exception as e:
         c.violate(None, f"remove_symbol_definitions({syms}, stmt {k}) raised {type(e).__name__}: {e}", render(prog2))
         return
